@@ -42,7 +42,12 @@ type fedConfig struct {
 	Reduced bool
 }
 
-func (fc fedConfig) plan(tier string) []c20.LenPlan { return c20.DefaultPlan(tier, !fc.Reduced) }
+func (fc fedConfig) plan(tier string) []c20.LenPlan {
+	if os.Getenv("VERIF_C20_PLAN") != "" { // development aid
+		return c20.PlanFor(tier)
+	}
+	return c20.DefaultPlan(tier, !fc.Reduced)
+}
 
 var (
 	v2def = fedConfig{Name: "v2-default", Version: 2, Mode: "default"}
@@ -276,6 +281,16 @@ func main() {
 	if tier == "thorough" {
 		cfgs = []fedConfig{v2def, v2exp, v2com, v1def, v1exp, v1com}
 		budget = 20 * time.Minute
+	}
+	if sel := os.Getenv("VERIF_C20_CONFIGS"); sel != "" { // development aid: run only the named configurations
+		cfgs = nil
+		for _, fc := range []fedConfig{v2def, v2exp, v2com, v1def, v1exp, v1com} {
+			for _, n := range strings.Split(sel, ",") {
+				if n == fc.Name {
+					cfgs = append(cfgs, fc)
+				}
+			}
+		}
 	}
 	if b, _ := strconv.Atoi(argValue("--budget")); b > 0 {
 		budget = time.Duration(b) * time.Second
